@@ -51,6 +51,14 @@ func genCorsCfg(r *core.Rand) *corsCfg {
 	if n > 0 && r.Chance(1, 8) {
 		c.Domains = append(c.Domains, ".*")
 	}
+	switch r.Intn(12) {
+	case 0:
+		c.Domains = []string{""} // what strings.Split("", ",") yields: a configured list that allows nobody
+	case 1:
+		c.Domains = append(c.Domains, " "+r.Pick(originPool)+" ") // an entry is compared as a whole, blanks included
+	case 2:
+		c.Domains = append(c.Domains, "", " ")
+	}
 	if r.Chance(1, 3) {
 		c.HasPred = true
 		for i := 0; i < r.Range(0, 2); i++ {
@@ -138,7 +146,10 @@ func originVariants(r *core.Rand, cfg *corsCfg) []string {
 	entries = append(entries, cfg.Pred...)
 	entries = append(entries, r.Pick(originPool))
 	for _, e := range entries {
-		if e == ".*" || e == "" {
+		if t := strings.TrimSpace(e); t != e && t != "" {
+			out = append(out, t)
+		}
+		if e == ".*" || len(e) < 2 {
 			continue
 		}
 		out = append(out, e, strings.ToUpper(e), strings.ToLower(e), e[:len(e)-1], e[1:], e+".evil.com", e+"x", "x"+e, "evil-"+e, e+":8443", e+"/",
